@@ -281,6 +281,7 @@ def explore9(cfg: dict) -> dict:
             if cb:
                 res['witness_bad'].append({'inputs': dims, 'concrete_bad': cb, 'symbolic_impl': 'ok', 'concrete_impl': 'bad'})
     res['exhausted'] = ctx.exhausted
+    res['smt_samples'] = list(ctx.samples)
     res['stats'] = ctx.stats.as_dict()
     res['assumptions'] = list(ctx.assumptions)
     res['shim_calls'] = dict(_ANP.calls)
